@@ -79,7 +79,7 @@ template <class T> static void dqlerp_p(pbt::Ctx& c) {
 	else if (!amb && a != 0 && (d < 0 ? okm != 8 : okp != 8))
 		c.failk(key("dualquat-lerp", ty, "short-path-sign", scls), "lerp(x=(%s,..), y=(%s,..), a=%.17g)=(%s,..) blends towards %sy although dot(x.real,y.real)=%.6Lg", qstr(xr).c_str(), qstr(yr).c_str(), (double)a, qstr(g).c_str(), d < 0 ? "+" : "-", d);
 }
-REG2(dqlerp_p, "dualquat-lerp", 700000, 30000000,
+REG2(dqlerp_p, "dualquat-lerp", 700000, 20000000,
      "dual quaternions with unit real parts in every pair relation of the slerp generator and dual parts from a translation (rigid transform) or arbitrary, a in [0,1] (asserted): all 8 components equal x*(1-a)+(+-y)*a in T with "
      "one common sign, the sign of the shorter arc between the real parts (either when dot is within rounding of 0); non-trivial = a not in {0,1}");
 
@@ -144,14 +144,12 @@ template <class T> static void squad_p(pbt::Ctx& c) {
 	}
 	Arc A1 = make_arc(r1, r2), A2 = make_arc(t1, t2);
 	if (A1.degenerate || A2.degenerate) { c.skip(); return; }
-	R rz1 = A1.theta * A1.theta / (2 * EPS<T>()), rz2 = A2.theta * A2.theta / (2 * EPS<T>());
-	Tol ta = arc_tol<T>(A1, rh, 0, rz1 <= 8), tb = arc_tol<T>(A2, rh, 0, rz2 <= 8);
+	Tol ta = arc_tol<T>(A1, rh, 0), tb = arc_tol<T>(A2, rh, 0);
 	R P[4], S[4]; arc_point(A1, rh * A1.theta, P); arc_point(A2, rh * A2.theta, S);
 	Arc A3 = make_arc(P, S);
 	if (A3.degenerate) { c.skip(); return; }
 	R a2 = 2 * (1 - rh) * rh;
-	R rz3 = A3.theta * A3.theta / (2 * EPS<T>());
-	Tol tc3 = arc_tol<T>(A3, a2, 0, rz3 <= 8);
+	Tol tc3 = arc_tol<T>(A3, a2, 0);
 	R delta = ta.total + tb.total;
 	R tol = tc3.total + delta * (rabs(tc3.k0) + rabs(tc3.k1)) + tc3.sens * 2 * delta / A3.sn + 8 * 3 * u * a2 * A3.theta;
 	if (!(tol < CAP)) { c.cls("bound above cap: ill-conditioned, finiteness only"); return; }
@@ -192,12 +190,25 @@ template <class T> static void intermediate_p(pbt::Ctx& c) {
 	qexp_pure(e, ex); qmul(rq, ex, want);
 	R nw = norm4(want); for (int i = 0; i < 4; ++i) want[i] /= nw;
 	c.nontrivial();
-	// two products (8 flops each on unit factors), two logs (atan/length), one exp (sin/cos/length), one product: ~40 u; x8 margin, generous
-	const R tol = 8 * 48 * U<T>();
-	if (!within(c, "intermediate |len-1| err/tol", rabs(norm4(rg) - 1), tol))
+	// three quaternion products on unit factors (3 x ~1.5 u), two logs (atan, length, division: ~2 u of an angle <= 1.2, then /4), one exp (sin, cos, length: ~1 u): ~6 u; x8 margin
+	const R tol = 8 * 6 * U<T>();
+	R E = sqrtl(e[1] * e[1] + e[2] * e[2] + e[3] * e[3]);
+	// input class of the key: the exponential's argument is (nearly) zero, i.e. the control point is curr itself
+	bool tinyarg = E <= 2 * EPS<T>();
+	if (tinyarg) c.cls("exp argument |v| <= 2 eps (control point = curr)");
+	// (the tiny-argument class is a known-defect class on the pinned tree: compared without feeding the err/tol metrics)
+	bool ok_len = tinyarg ? rabs(norm4(rg) - 1) <= tol : within(c, "intermediate |len-1| err/tol", rabs(norm4(rg) - 1), tol);
+	bool ok_val = tinyarg ? dist4(rg, want) <= tol : within(c, "intermediate value err/tol", dist4(rg, want), tol);
+	if (tinyarg) {
+		if (!ok_len || !ok_val)
+			c.failk(key("intermediate", ty, "exp-argument-below-epsilon"), "intermediate(prev=%s,curr=%s,next=%s)=%s: log(curr^-1 next)+log(curr^-1 prev) has length %.3Lg, so the control point is curr*exp(0)=curr=(w=%.17Lg,x=%.17Lg,y=%.17Lg,z=%.17Lg); result has length %.6Lg",
+			        qstr(p).c_str(), qstr(q).c_str(), qstr(n).c_str(), qstr(g).c_str(), 4 * E, want[0], want[1], want[2], want[3], norm4(rg));
+		return;
+	}
+	if (!ok_len)
 		c.failk(key("intermediate", ty, "unit-length"), "intermediate(prev=%s,curr=%s,next=%s)=%s has length %.17Lg", qstr(p).c_str(), qstr(q).c_str(), qstr(n).c_str(), qstr(g).c_str(), norm4(rg));
-	if (!within(c, "intermediate value err/tol", dist4(rg, want), tol))
-		c.failk(key("intermediate", ty, mode == 0 ? "equally-spaced-gives-curr" : "shoemake-formula"), "intermediate(prev=%s,curr=%s,next=%s)=%s, curr*exp(-(log(curr^-1 next)+log(curr^-1 prev))/4)=(w=%.17Lg,x=%.17Lg,y=%.17Lg,z=%.17Lg) (distance %.3Lg, bound %.3Lg)",
+	if (!ok_val)
+		c.failk(key("intermediate", ty, "shoemake-formula"), "intermediate(prev=%s,curr=%s,next=%s)=%s, curr*exp(-(log(curr^-1 next)+log(curr^-1 prev))/4)=(w=%.17Lg,x=%.17Lg,y=%.17Lg,z=%.17Lg) (distance %.3Lg, bound %.3Lg)",
 		        qstr(p).c_str(), qstr(q).c_str(), qstr(n).c_str(), qstr(g).c_str(), want[0], want[1], want[2], want[3], dist4(rg, want), tol);
 }
 REG2(intermediate_p, "intermediate", 500000, 20000000,
@@ -240,7 +251,7 @@ template <class T, int L> static void compat_L(pbt::Ctx& c) {
 	}
 }
 template <class T> static void compat_p(pbt::Ctx& c) { switch (c.draw(4)) { case 0: compat_L<T, 3>(c); break; case 1: compat_L<T, 2>(c); break; case 2: compat_L<T, 4>(c); break; default: compat_L<T, 1>(c); break; } }
-REG2(compat_p, "compat-lerp", 1000000, 50000000,
+REG2(compat_p, "compat-lerp", 1000000, 30000000,
      "gtx/compatibility lerp, scalar and vec2..4 with scalar and with vector factor: operands finite (structured specials, magnitudes 2^-20..2^20), factor any finite moderate value incl. 0, 1, 1/2, [-2,3]: each component "
      "equals x*(1-a)+y*a evaluated in T (VALUE, NaN from inf-inf matches NaN); non-trivial = components pairwise distinct, x != y, a not in {0,1}");
 
